@@ -21,6 +21,8 @@ import itertools
 import os
 
 from lib import cmd, import_impl, Sym
+import fam_streams as S
+from fam_streams import arg
 
 # --------------------------------------------------------------------------
 # graphs
@@ -97,6 +99,16 @@ def to_impl_graph(g):
         else:
             G.add_edge(u, v)
     return G
+
+
+def on_graph(p, key, call, ops='ops'):
+    """call(G, overrides) on the graph argument p[key]: built by to_impl_graph or, for the history stream (p[ops]
+    is a list of public API calls, see fam_streams), by replaying them -- the generator is then called on the same
+    object at every 'gen' op and the value of the last call is returned."""
+    import_impl()
+    if ops in p:
+        return S.replay(p[ops], call)
+    return call(to_impl_graph(p[key]), {})
 
 
 def gargs(g):
@@ -212,7 +224,7 @@ def tseitin_params(rng, tier):
 def tseitin_build(p, formula_class):
     import_impl()
     from cnfgen.families.tseitin import TseitinFormula
-    return TseitinFormula(to_impl_graph(p['G']), p['charges'], formula_class=formula_class)
+    return on_graph(p, 'G', lambda G, over: TseitinFormula(G, over.get('charges', p['charges']), formula_class=formula_class))
 
 
 def tseitin_request(p):
@@ -284,7 +296,8 @@ def kcolor_params(rng, tier):
 def kcolor_build(p, formula_class):
     import_impl()
     from cnfgen.families.coloring import GraphColoringFormula
-    return GraphColoringFormula(to_impl_graph(p['G']), p['k'], functional=p['functional'], formula_class=formula_class)
+    return on_graph(p, 'G', lambda G, over: GraphColoringFormula(G, p['k'], functional=arg(dict(p, **over), 'functional'),
+                                                                 formula_class=formula_class))
 
 
 def kcolor_request(p):
@@ -346,7 +359,7 @@ def ec_params(rng, tier):
 def ec_build(p, formula_class):
     import_impl()
     from cnfgen.families.coloring import EvenColoringFormula
-    return EvenColoringFormula(to_impl_graph(p['G']), formula_class=formula_class)
+    return on_graph(p, 'G', lambda G, over: EvenColoringFormula(G, formula_class=formula_class))
 
 
 def ec_request(p):
@@ -399,7 +412,8 @@ def domset_params(rng, tier):
 def domset_build(p, formula_class):
     import_impl()
     from cnfgen.families.dominatingset import DominatingSet
-    return DominatingSet(to_impl_graph(p['G']), p['d'], alternative=p['alternative'], formula_class=formula_class)
+    return on_graph(p, 'G', lambda G, over: DominatingSet(G, p['d'], alternative=arg(dict(p, **over), 'alternative'),
+                                                          formula_class=formula_class))
 
 
 def domset_request(p):
@@ -480,7 +494,7 @@ def tiling_params(rng, tier):
 def tiling_build(p, formula_class):
     import_impl()
     from cnfgen.families.dominatingset import Tiling
-    return Tiling(to_impl_graph(p['G']), formula_class=formula_class)
+    return on_graph(p, 'G', lambda G, over: Tiling(G, formula_class=formula_class))
 
 
 def tiling_request(p):
@@ -541,10 +555,17 @@ def iso_build(p, formula_class):
     import_impl()
     from cnfgen.families.graphisomorphism import GraphIsomorphism, GraphAutomorphism
     if p['G2'] is None:
-        return GraphAutomorphism(to_impl_graph(p['G1']), formula_class=formula_class)
+        return on_graph(p, 'G1', lambda G, over: GraphAutomorphism(G, formula_class=formula_class))
+    if p.get('same_object'):          # one Graph object passed for both arguments
+        return on_graph(p, 'G1', lambda G, over: GraphIsomorphism(G, G, nontrivial=arg(dict(p, **over), 'nontrivial'),
+                                                                  formula_class=formula_class))
+    H = to_impl_graph(p['G2'])
+    if 'raw' in p or 'ops' in p:
+        return on_graph(p, 'G1', lambda G, over: GraphIsomorphism(G, H, nontrivial=arg(dict(p, **over), 'nontrivial'),
+                                                                  formula_class=formula_class))
     if p.get('nontrivial'):
-        return GraphIsomorphism(to_impl_graph(p['G1']), to_impl_graph(p['G2']), nontrivial=True, formula_class=formula_class)
-    return GraphIsomorphism(to_impl_graph(p['G1']), to_impl_graph(p['G2']), formula_class=formula_class)
+        return GraphIsomorphism(to_impl_graph(p['G1']), H, nontrivial=True, formula_class=formula_class)
+    return GraphIsomorphism(to_impl_graph(p['G1']), H, formula_class=formula_class)
 
 
 def iso_request(p):
@@ -660,8 +681,11 @@ def subgraph_params(rng, tier):
 def subgraph_build(p, formula_class):
     import_impl()
     from cnfgen.families.subgraph import SubgraphFormula
-    return SubgraphFormula(to_impl_graph(p['G']), to_impl_graph(p['H']), induced=p['induced'],
-                           symbreak=p['symbreak'], formula_class=formula_class)
+    def call(G, over):
+        q = dict(p, **over)
+        H = G if p.get('same_object') else to_impl_graph(p['H'])
+        return SubgraphFormula(G, H, induced=arg(q, 'induced'), symbreak=arg(q, 'symbreak'), formula_class=formula_class)
+    return on_graph(p, 'G', call)
 
 
 def subgraph_request(p):
@@ -748,7 +772,7 @@ def kclique_params(rng, tier):
 def kclique_build(p, formula_class):
     import_impl()
     from cnfgen.families.subgraph import CliqueFormula
-    return CliqueFormula(to_impl_graph(p['G']), p['k'], symbreak=p['symbreak'], formula_class=formula_class)
+    return on_graph(p, 'G', lambda G, over: CliqueFormula(G, p['k'], symbreak=arg(dict(p, **over), 'symbreak'), formula_class=formula_class))
 
 
 def kclique_request(p):
@@ -822,7 +846,8 @@ def kcliquebin_params(rng, tier):
 def kcliquebin_build(p, formula_class):
     import_impl()
     from cnfgen.families.subgraph import BinaryCliqueFormula
-    return BinaryCliqueFormula(to_impl_graph(p['G']), p['k'], symbreak=p['symbreak'], formula_class=formula_class)
+    return on_graph(p, 'G', lambda G, over: BinaryCliqueFormula(G, p['k'], symbreak=arg(dict(p, **over), 'symbreak'),
+                                                                formula_class=formula_class))
 
 
 def kcliquebin_request(p):
@@ -893,7 +918,8 @@ def ramlb_params(rng, tier):
 def ramlb_build(p, formula_class):
     import_impl()
     from cnfgen.families.subgraph import RamseyWitnessFormula
-    return RamseyWitnessFormula(to_impl_graph(p['G']), p['k'], p['s'], symbreak=p['symbreak'], formula_class=formula_class)
+    return on_graph(p, 'G', lambda G, over: RamseyWitnessFormula(G, p['k'], p['s'], symbreak=arg(dict(p, **over), 'symbreak'),
+                                                                 formula_class=formula_class))
 
 
 def ramlb_request(p):
@@ -924,40 +950,337 @@ def ramlb_cli(p, tmpdir):
     return ['ramlb', str(p['k']), str(p['s']), write_graph(p['G'], tmpdir, 'G')]
 
 
+
+# --------------------------------------------------------------------------
+# threshold / shape / history streams (notes/LARGE_STREAMS.md, harness/fam_streams.py)
+# --------------------------------------------------------------------------
+def _g(n, es):
+    return {'n': n, 'edges': S.norm_edges(es)}
+
+
+def _star(n, hub=1):
+    return _g(n, S.star(n, hub))
+
+
+def _path(n):
+    return _g(n, S.path(n))
+
+
+def _cycle(n):
+    return _g(n, S.cycle(n))
+
+
+def _two(k):
+    return _g(2 * k, S.two_cycles(k))
+
+
+def _kminus(n, miss):
+    return _g(n, S.complete_minus(n, miss))
+
+
+def _windmill(t):
+    """hub 1 with t triangles: hub degree 2t, every degree even"""
+    return _g(2 * t + 1, [e for i in range(t) for e in ([1, 2 * i + 2], [1, 2 * i + 3], [2 * i + 2, 2 * i + 3])])
+
+
+def _with_isolated(g, extra):
+    return {'n': g['n'] + extra, 'edges': g['edges']}
+
+
+HUBS = (15, 16, 17, 63, 64, 65, 127, 128, 129, 256, 257)
+LIN = (16, 17, 64, 65, 128, 129, 256, 257, 258, 300)
+
+
+def _hist(rng, count, flagsets, mk, maxdeg=None):
+    """count histories of one Graph object; mk(flags, graph dict, ops) -> param dict"""
+    out = []
+    for _ in range(count):
+        phases = S.simple_history(rng, maxdeg=maxdeg)
+        fls = flagsets(rng) if callable(flagsets) else flagsets
+        for ops, fl, st in S.history_points(phases, fls):
+            n, es = S.simple_fields(st)
+            out.append(mk(fl, {'n': n, 'edges': es}, ops))
+    return out
+
+
+def _shapes(rng, flags, count, mk, per_value):
+    bases = [mk(random_graph(rng, rng.randint(1, 4), 0.6)) for _ in range(count)]
+    return S.flag_shapes(rng, flags, bases, per_value=per_value)
+
+
+ODD_CHARGES = [2, 3, -1, 0.5, 7, 256, 1.0]         # truthy, not 0/1: documented as bool-cast
+EVEN_CHARGES = [0, 0.0]
+NONNUMERIC_CHARGES = ['a', [0], '', [], None]      # "any non-boolean value is interpreted via bool cast"
+
+
+def tseitin_raise_class(p, exc):
+    """class of a call that raised: the code adds the charges up before casting them (finding C02-tseitin-charges)"""
+    ch = p.get('charges')
+    if exc == 'TypeError' and ch is not None and any(not isinstance(c, (bool, int, float)) for c in ch):
+        return 'non-numeric-charges'
+    return None
+
+
+def tseitin_streams(rng, tier):
+    quick = tier == 'quick'
+    out = []
+    for n in LIN + (() if quick else (1000, 1025)):
+        g = _path(n) if n % 2 else _cycle(n)
+        out.append(dict(G=g, charges=rng.choice([None, [rng.random() < 0.5 for _ in range(n)], [True] * n])))
+    out.append(dict(G=_g(300, S.hub_on_path(300, 12, hub=150)), charges=[True, False] * 150))
+    out.append(dict(G=_star(13, hub=13), charges=None))
+    out.append(dict(G=_two(129), charges=[True] * 129 + [False] * 128 + [True]))          # two equal components, odd / even
+    out.append(dict(G=_two(128), charges=[True] * 256))
+    out.append(dict(G=_with_isolated(_path(100), 20), charges=[False] * 110 + [True]))    # odd charge on an isolated vertex
+    out.append(dict(G=_g(300, []), charges=[False] * 299 + [True]))
+    out.append(dict(G=_g(257, []), charges=[]))
+    _mark(out, 'thresholds')
+    sh = []
+    for _ in range(12 if quick else 80):
+        n = rng.randint(1, 5)
+        g = random_graph(rng, n, 0.6)
+        m = rng.choice([n, n, n, max(0, n - 1), n + 2, 0, 1])
+        sh.append(dict(G=g, charges=[rng.choice(ODD_CHARGES + EVEN_CHARGES + [True, False, 1]) for _ in range(m)]))
+    for c in ODD_CHARGES + EVEN_CHARGES:
+        sh.append(dict(G=_g(2, [[1, 2]]), charges=[c, True]))
+        sh.append(dict(G=_g(3, [[1, 2], [2, 3]]), charges=[True, c]))             # shorter than the vertex count
+        sh.append(dict(G=_g(2, [[1, 2]]), charges=[False, True, c, c]))         # longer: the rest is ignored
+    for c in NONNUMERIC_CHARGES:
+        sh.append(dict(G=_g(2, [[1, 2]]), charges=[c, True]))
+    _mark(sh, 'shapes')
+
+    def fls(r):
+        return [dict(charges=r.choice([None, [r.choice([True, False, 2, 0, -1]) for _ in range(r.randint(0, 12))]])) for _ in range(4)]
+    hist = _hist(rng, 8 if quick else 80, fls, lambda fl, g, ops: dict(G=g, charges=fl['charges'], ops=ops), maxdeg=6)
+    return sh + _mark(hist, 'history') + out
+
+
+def kcolor_streams(rng, tier):
+    quick = tier == 'quick'
+    out = []
+    for d in HUBS:
+        out.append(dict(G=_star(d + 1, hub=(1, d + 1, d // 2)[d % 3]), k=rng.choice([1, 2, 3]), functional=d % 2 == 0))
+    for k in (15, 16, 17, 63, 64, 65, 127, 128, 129) + (() if quick else (255, 256, 257, 258)):
+        out.append(dict(G=_path(3), k=k, functional=True))
+        out.append(dict(G=_g(2, [[1, 2]]), k=k, functional=False))
+    for n in LIN + (1000, 1025):
+        out.append(dict(G=_path(n) if n % 2 else _cycle(n), k=2, functional=n % 4 < 2))
+    out.append(dict(G=_kminus(17, [[1, 17]]), k=3, functional=True))
+    out.append(dict(G=_kminus(65, [[1, 65], [32, 33]]), k=2, functional=False))
+    out.append(dict(G=_two(64), k=2, functional=True))
+    out.append(dict(G=_with_isolated(_star(130), 5), k=2, functional=True))
+    out.append(dict(G=_g(300, []), k=1, functional=True))
+    _mark(out, 'thresholds')
+    sh = _shapes(rng, ['functional'], 8, lambda g: dict(G=g, k=rng.randint(0, 3)), 1 if quick else 4)
+    hist = _hist(rng, 6 if quick else 60, [dict(functional=True), dict(functional=False)],
+                 lambda fl, g, ops: dict(G=g, k=rng.randint(1, 3), functional=fl['functional'], ops=ops))
+    return _mark(sh, 'shapes') + _mark(hist, 'history') + out
+
+
+def ec_streams(rng, tier):
+    out = [dict(G=_cycle(n)) for n in LIN if tier != 'quick' or n <= 129 or n == 257] + [dict(G=_two(k)) for k in (8, 64, 129)]
+    out += [dict(G=_windmill(t)) for t in (1, 4, 5, 6)]                              # hub degree up to 12
+    out.append(dict(G=_with_isolated(_cycle(65), 64)))
+    out.append(dict(G=_g(300, [])))
+    out.append(dict(G=_star(17)))                                                   # odd degrees: ValueError
+    _mark(out, 'thresholds')
+    hist = _hist(rng, 6 if tier == 'quick' else 60, [], lambda fl, g, ops: dict(G=g, ops=ops), maxdeg=6)
+    # histories that end with all degrees even: a cycle, then one of its edges replaced by a path through new vertices
+    for _ in range(4 if tier == 'quick' else 30):
+        n = rng.randint(3, 8)
+        vs = list(range(1, n + 1))
+        rng.shuffle(vs)
+        cyc = [[vs[i], vs[(i + 1) % n]] for i in range(n)]
+        rng.shuffle(cyc)
+        phases = [[['new', n]] + [['add'] + e for e in cyc],
+                  [['rm'] + cyc[0][::-1], ['grow', n + 2], ['add', cyc[0][0], n + 2], ['add', n + 1, n + 2], ['add', n + 1, cyc[0][1]]]]
+        for ops, fl, st in S.history_points(phases, []):
+            nn, es = S.simple_fields(st)
+            hist.append(dict(G={'n': nn, 'edges': es}, ops=ops))
+    return _mark(hist, 'history') + out
+
+
+def domset_streams(rng, tier):
+    quick = tier == 'quick'
+    out = []
+    for d in HUBS:
+        if quick and d in (15, 63, 127, 256):
+            continue
+        out.append(dict(G=_star(d + 1, hub=(1, d + 1, d // 2)[d % 3]), d=1, alternative=d % 2 == 0 and (d <= 129 or not quick)))
+    out.append(dict(G=_star(130), d=2, alternative=False))
+    for n in (64, 65, 128, 129, 257, 300):
+        out.append(dict(G=_path(n) if n % 2 else _cycle(n), d=1, alternative=n % 4 < 2))
+    for d in (15, 16, 17, 63, 64, 65):
+        out.append(dict(G=_path(4), d=d, alternative=False))
+        out.append(dict(G=_path(3), d=d, alternative=True))
+    out.append(dict(G=_kminus(65, [[1, 65]]), d=2, alternative=False))
+    out.append(dict(G=_two(33), d=3, alternative=True))
+    out.append(dict(G=_with_isolated(_star(65), 3), d=4, alternative=False))
+    out.append(dict(G=_g(129, []), d=2, alternative=True))
+    _mark(out, 'thresholds')
+    sh = _shapes(rng, ['alternative'], 8, lambda g: dict(G=g, d=rng.randint(1, 3)), 1 if quick else 4)
+    hist = _hist(rng, 6 if quick else 60, [dict(alternative=False), dict(alternative=True)],
+                 lambda fl, g, ops: dict(G=g, d=rng.randint(1, 3), alternative=fl['alternative'], ops=ops))
+    return _mark(sh, 'shapes') + _mark(hist, 'history') + out
+
+
+def tiling_streams(rng, tier):
+    out = [dict(G=_star(d + 1, hub=(1, d + 1, d // 2)[d % 3])) for d in HUBS]
+    out += [dict(G=_path(n) if n % 2 else _cycle(n)) for n in S.TH]
+    out += [dict(G=_two(k)) for k in (8, 129)]
+    out += [dict(G=_with_isolated(_star(258), 4)), dict(G=_g(300, [])), dict(G=_kminus(65, [[1, 65], [2, 3]]))]
+    _mark(out, 'thresholds')
+    hist = _hist(rng, 8 if tier == 'quick' else 80, [], lambda fl, g, ops: dict(G=g, ops=ops))
+    return _mark(hist, 'history') + out
+
+
+def iso_streams(rng, tier):
+    quick = tier == 'quick'
+    out = []
+    for n in (15, 16, 17) + (() if quick else (32, 33)):
+        out.append(dict(G1=_path(n), G2=_cycle(n), nontrivial=False))
+        out.append(dict(G1=_star(n), G2=_star(n, hub=n), nontrivial=n % 2 == 0))
+        out.append(dict(G1=_star(n, hub=2), G2=None, nontrivial=False))
+        out.append(dict(G1=_g(n, []), G2=_g(n, []), nontrivial=True))
+    out.append(dict(G1=_path(16), G2=_path(17), nontrivial=False))                      # different orders
+    out.append(dict(G1=_two(8), G2=permuted(rng, _two(8)), nontrivial=False))
+    out.append(dict(G1=_g(65, []), G2=_g(1, []), nontrivial=False))
+    out.append(dict(G1=_g(0, []), G2=_g(129, []), nontrivial=False))
+    _mark(out, 'thresholds')
+    sh = S.flag_shapes(rng, ['nontrivial'], [(lambda g: dict(G1=g, G2=permuted(rng, g)))(random_graph(rng, rng.randint(1, 4), 0.5))
+                                             for _ in range(8)], per_value=1 if quick else 4)
+    for _ in range(6 if quick else 40):                                                   # one object for both arguments
+        g = random_graph(rng, rng.randint(0, 4), 0.5)
+        sh.append(dict(G1=g, G2=g, nontrivial=rng.random() < 0.5, same_object=True))
+    hist = []
+    for _ in range(6 if quick else 60):
+        phases = S.simple_history(rng, n0=rng.randint(2, 4))
+        other = rng.choice([None, 'copy', 'random'])
+        for ops, fl, st in S.history_points(phases, [dict(nontrivial=False), dict(nontrivial=True)]):
+            n, es = S.simple_fields(st)
+            g = {'n': n, 'edges': es}
+            g2 = None if other is None else permuted(rng, g) if other == 'copy' else random_graph(rng, n, 0.5)
+            hist.append(dict(G1=g, G2=g2, nontrivial=fl['nontrivial'] if g2 is not None else False, ops=ops))
+    return _mark(sh, 'shapes') + _mark(hist, 'history') + out
+
+
+def subgraph_streams(rng, tier):
+    quick = tier == 'quick'
+    tri = _g(3, [[1, 2], [2, 3], [1, 3]])
+    out = [dict(G=_star(258), H=_path(2), induced=False, symbreak=False),
+           dict(G=_star(130, hub=130), H=_path(3), induced=True, symbreak=True),
+           dict(G=_path(300), H=_path(2), induced=True, symbreak=False),
+           dict(G=_kminus(65, [[1, 65], [32, 33]]), H=tri, induced=False, symbreak=True),
+           dict(G=_g(129, []), H=_g(2, []), induced=True, symbreak=True),
+           dict(G=_path(5), H=_path(17), induced=False, symbreak=False),                # H larger than G
+           dict(G=_path(4), H=_g(16, []), induced=True, symbreak=True),
+           dict(G=_cycle(17), H=_path(3), induced=False, symbreak=True),
+           dict(G=_two(8), H=_cycle(4), induced=True, symbreak=False),
+           dict(G=_with_isolated(_star(65), 64), H=_g(2, []), induced=True, symbreak=False)]
+    if not quick:
+        out += [dict(G=_kminus(129, [[1, 129], [64, 65]]), H=tri, induced=True, symbreak=True),
+                dict(G=_kminus(257, [[1, 257], [128, 129]]), H=_path(2), induced=False, symbreak=False)]
+    _mark(out, 'thresholds')
+    sh = S.flag_shapes(rng, ['induced', 'symbreak'],
+                       [dict(G=random_graph(rng, rng.randint(1, 4), 0.6), H=random_graph(rng, rng.randint(1, 3), 0.6)) for _ in range(8)],
+                       per_value=1 if quick else 4)
+    for _ in range(4 if quick else 30):
+        g = random_graph(rng, rng.randint(0, 3), 0.5)
+        sh.append(dict(G=g, H=g, induced=rng.random() < 0.5, symbreak=rng.random() < 0.5, same_object=True))
+    fl4 = [dict(induced=i, symbreak=b) for i in (False, True) for b in (False, True)]
+    hist = _hist(rng, 6 if quick else 60, lambda r: r.sample(fl4, 4),
+                 lambda fl, g, ops: dict(G=g, H=random_graph(rng, rng.randint(1, 3), 0.6), induced=fl['induced'], symbreak=fl['symbreak'], ops=ops))
+    return _mark(sh, 'shapes') + _mark(hist, 'history') + out
+
+
+def kclique_streams(rng, tier):
+    quick = tier == 'quick'
+    out = [dict(G=_star(258), k=2, symbreak=True), dict(G=_star(130, hub=65), k=2, symbreak=False),
+           dict(G=_kminus(65, [[1, 65], [32, 33]]), k=3, symbreak=False), dict(G=_two(64), k=2, symbreak=True),
+           dict(G=_with_isolated(_kminus(17, [[1, 2]]), 16), k=3, symbreak=True), dict(G=_g(129, []), k=2, symbreak=True)]
+    for k in (15, 16, 17, 33, 64, 65):
+        out.append(dict(G=_path(4), k=k, symbreak=k % 2 == 0))
+    out.append(dict(G=_kminus(17, []), k=17, symbreak=True))
+    out.append(dict(G=_kminus(16, []), k=17, symbreak=False))
+    if not quick:
+        out += [dict(G=_kminus(129, [[1, 129], [64, 65]]), k=3, symbreak=False), dict(G=_kminus(257, [[1, 257]]), k=2, symbreak=True)]
+    _mark(out, 'thresholds')
+    sh = _shapes(rng, ['symbreak'], 8, lambda g: dict(G=g, k=rng.randint(0, 3)), 1 if quick else 4)
+    hist = _hist(rng, 6 if quick else 60, [dict(symbreak=True), dict(symbreak=False)],
+                 lambda fl, g, ops: dict(G=g, k=rng.randint(1, 3), symbreak=fl['symbreak'], ops=ops))
+    return _mark(sh, 'shapes') + _mark(hist, 'history') + out
+
+
+def kcliquebin_streams(rng, tier):
+    """the number of bits changes at 2^b + 1 vertices"""
+    quick = tier == 'quick'
+    out = []
+    for n in (15, 16, 17, 31, 32, 33, 63, 64, 65, 127, 128, 129):
+        g = (_star(n, hub=n), _cycle(n), _kminus(n, [[1, n], [2, 3]]))[n % 3] if n < 100 else _kminus(n, [[1, n], [2, 3], [n // 2, n // 2 + 1]])
+        out.append(dict(G=g, k=2, symbreak=n % 2 == 0))
+    out.append(dict(G=_kminus(33, [[1, 33]]), k=3, symbreak=True))
+    out.append(dict(G=_path(5), k=17, symbreak=True))
+    out.append(dict(G=_with_isolated(_kminus(9, []), 8), k=3, symbreak=False))
+    out.append(dict(G=_star(257), k=2, symbreak=True, only_cnf=True))
+    if not quick:
+        out += [dict(G=_star(n, hub=n), k=2, symbreak=True) for n in (255, 256, 258)]
+        out += [dict(G=_kminus(257, [[1, 257], [128, 129], [5, 256]]), k=2, symbreak=False), dict(G=_star(65), k=3, symbreak=False)]
+    _mark(out, 'thresholds')
+    sh = _shapes(rng, ['symbreak'], 8, lambda g: dict(G=g, k=rng.randint(1, 3)), 1 if quick else 4)
+    hist = _hist(rng, 6 if quick else 60, [dict(symbreak=True), dict(symbreak=False)],
+                 lambda fl, g, ops: dict(G=g, k=rng.randint(1, 3), symbreak=fl['symbreak'], ops=ops))
+    return _mark(sh, 'shapes') + _mark(hist, 'history') + out
+
+
+def ramlb_streams(rng, tier):
+    quick = tier == 'quick'
+    out = [dict(G=_kminus(65, [[1, 65]]), k=2, s=2, symbreak=True), dict(G=_path(65), k=2, s=2, symbreak=False),
+           dict(G=_star(130), k=2, s=2, symbreak=True), dict(G=_cycle(17), k=3, s=3, symbreak=True),
+           dict(G=_two(16), k=3, s=3, symbreak=False), dict(G=_with_isolated(_star(17), 16), k=3, s=3, symbreak=True),
+           dict(G=_path(4), k=17, s=17, symbreak=True), dict(G=_g(33, []), k=2, s=2, symbreak=False)]
+    if not quick:
+        out += [dict(G=_kminus(129, [[1, 129]]), k=2, s=2, symbreak=True), dict(G=_star(258), k=2, s=2, symbreak=True)]
+    _mark(out, 'thresholds')
+    sh = _shapes(rng, ['symbreak'], 8, lambda g: (lambda k: dict(G=g, k=k, s=k))(rng.randint(0, 3)), 1 if quick else 4)
+    hist = _hist(rng, 6 if quick else 60, [dict(symbreak=True), dict(symbreak=False)],
+                 lambda fl, g, ops: (lambda k: dict(G=g, k=k, s=k, symbreak=fl['symbreak'], ops=ops))(rng.randint(1, 3)))
+    return _mark(sh, 'shapes') + _mark(hist, 'history') + out
+
+
 def _small_default(p):
     return True
 
 
 FAMILIES = [
-    dict(name='tseitin', prop='C02', params=tseitin_params, build=tseitin_build, request=tseitin_request,
+    dict(name='tseitin', prop='C02', params=tseitin_params, streams=tseitin_streams, build=tseitin_build, request=tseitin_request,
          numvar_doc=lambda p: len(p['G']['edges']), decode_ok=tseitin_decode_ok, exists=tseitin_exists,
-         cli=tseitin_cli, count=lambda p: tseitin_count(p), site='TseitinFormula'),
-    dict(name='kcolor', prop='C02', params=kcolor_params, build=kcolor_build, request=kcolor_request,
+         cli=tseitin_cli, count=lambda p: tseitin_count(p), site='TseitinFormula', raise_class=tseitin_raise_class),
+    dict(name='kcolor', prop='C02', params=kcolor_params, streams=kcolor_streams, build=kcolor_build, request=kcolor_request,
          numvar_doc=lambda p: p['G']['n'] * p['k'] if p['k'] >= 0 else None, decode_ok=kcolor_decode_ok,
          exists=kcolor_exists, cli=kcolor_cli, count=kcolor_count, site='GraphColoringFormula'),
-    dict(name='ec', prop='C02', params=ec_params, build=ec_build, request=ec_request,
+    dict(name='ec', prop='C02', params=ec_params, streams=ec_streams, build=ec_build, request=ec_request,
          numvar_doc=lambda p: len(p['G']['edges']), decode_ok=ec_decode_ok, exists=ec_exists, cli=ec_cli,
          count=None, site='EvenColoringFormula'),
-    dict(name='domset', prop='C02', params=domset_params, build=domset_build, request=domset_request,
+    dict(name='domset', prop='C02', params=domset_params, streams=domset_streams, build=domset_build, request=domset_request,
          numvar_doc=lambda p: p['G']['n'] * (1 + p['d']) if p['d'] > 0 else None, decode_ok=domset_decode_ok,
          exists=domset_exists, cli=domset_cli, count=None, site='DominatingSet'),
-    dict(name='tiling', prop='C02', params=tiling_params, build=tiling_build, request=tiling_request,
+    dict(name='tiling', prop='C02', params=tiling_params, streams=tiling_streams, build=tiling_build, request=tiling_request,
          numvar_doc=lambda p: p['G']['n'], decode_ok=tiling_decode_ok, exists=tiling_exists, cli=tiling_cli,
          count=tiling_count, site='Tiling'),
-    dict(name='iso', prop='C02', params=iso_params, build=iso_build, request=iso_request,
+    dict(name='iso', prop='C02', params=iso_params, streams=iso_streams, build=iso_build, request=iso_request,
          request_spec=iso_request_spec, finding=iso_finding,
          numvar_doc=lambda p: p['G1']['n'] * _iso_target(p)['n'], decode_ok=iso_decode_ok, exists=iso_exists,
          cli=iso_cli, count=iso_count, site='GraphIsomorphism'),
-    dict(name='subgraph', prop='C02', params=subgraph_params, build=subgraph_build, request=subgraph_request,
+    dict(name='subgraph', prop='C02', params=subgraph_params, streams=subgraph_streams, build=subgraph_build, request=subgraph_request,
          numvar_doc=lambda p: p['G']['n'] * p['H']['n'], decode_ok=subgraph_decode_ok, exists=subgraph_exists,
          cli=subgraph_cli, count=subgraph_count, site='SubgraphFormula'),
-    dict(name='kclique', prop='C02', params=kclique_params, build=kclique_build, request=kclique_request,
+    dict(name='kclique', prop='C02', params=kclique_params, streams=kclique_streams, build=kclique_build, request=kclique_request,
          numvar_doc=lambda p: p['G']['n'] * p['k'] if p['k'] >= 0 else None, decode_ok=kclique_decode_ok,
          exists=kclique_exists, cli=kclique_cli, count=kclique_count, site='CliqueFormula'),
-    dict(name='kcliquebin', prop='C02', params=kcliquebin_params, build=kcliquebin_build, request=kcliquebin_request,
+    dict(name='kcliquebin', prop='C02', params=kcliquebin_params, streams=kcliquebin_streams, build=kcliquebin_build, request=kcliquebin_request,
          numvar_doc=kcliquebin_numvar, decode_ok=kcliquebin_decode_ok, exists=kcliquebin_exists, cli=kcliquebin_cli,
          count=kclique_count, site='BinaryCliqueFormula'),
-    dict(name='ramlb', prop='C02', params=ramlb_params, build=ramlb_build, request=ramlb_request,
+    dict(name='ramlb', prop='C02', params=ramlb_params, streams=ramlb_streams, build=ramlb_build, request=ramlb_request,
          request_spec=ramlb_request_spec, finding=ramlb_finding,
          numvar_doc=None, decode_ok=None, exists=ramlb_exists, cli=ramlb_cli, count=None,
          site='RamseyWitnessFormula'),
